@@ -168,12 +168,30 @@ Definition rs_chunk_task (a : list Z) : list Z :=
   | _ => [-1]
   end.
 
+(* 94 kind n m before after changed fault : one step of the harness as the run-level theorem c04_rs_no_loss_run sees it.
+   before / after = number of named pieces that read back as the original bytes, changed = the durable host list of
+   the chunk differs from the one before the step, fault = the step was an injected fault; kind 5 = a reconstruction
+   step (detect / attempt / commit), the only kind that may change the named list. *)
+Definition V_RS_STEP_LOSS := 28.   (* a non-fault step took the intact named pieces from >= n to < n *)
+Definition V_RS_STEP_LIST := 29.   (* a step that is not a reconstruction changed the named host list *)
+Definition K_STEP_RECON := 5.
+Definition rs_step_judge (kind n before after changed fault : Z) : Z :=
+  if (fault =? 0) && (n <=? before) && (after <? n) then V_RS_STEP_LOSS
+  else if negb (changed =? 0) && negb (kind =? K_STEP_RECON) then V_RS_STEP_LIST
+  else V_RS_OK.
+Definition rs_step_line (a : list Z) : list Z :=
+  match a with
+  | [kind; n; _; before; after; changed; fault] => [777; rs_step_judge kind n before after changed fault]
+  | _ => [-1]
+  end.
+
 Definition rs_step (ev : list Z) : list Z :=
   match ev with
   | 90 :: _ => []
   | 91 :: a => rs_newchunk a
   | 92 :: a => rs_attempt a
   | 93 :: a => rs_chunk_task a
+  | 94 :: a => rs_step_line a
   | _ => [-1]
   end.
 
